@@ -1259,7 +1259,11 @@ class Gen:
         if self.canary:
             cname = new_name + "__canary"
             cf = re.sub(r"\bfn\s+%s\b" % re.escape(new_name), "fn " + cname, full, count=1)
-            cf = re.sub(r"\bensures\b", "ensures false,", cf, count=1)
+            if re.search(r"\bensures\b", spec or ""):
+                cf = re.sub(r"\bensures\b", "ensures false,", cf, count=1)
+            else:
+                kf = Fn(cf)
+                cf = cf[:kf.body_s] + " ensures false,\n    " + cf[kf.body_s:]
             rec["canary"] = cname
             c0 = self.lineno()
             self.emit(cf)
